@@ -1,13 +1,19 @@
 (* C01 — two plugins setting the same container item is always flagged as a conflict.
-   Only statements here; proofs are in Proofs/. *)
-From Coq Require Import String List Bool.
-From NRI Require Import Model.Types Model.Result Spec.AbsLedger Proofs.LedgerProofs.
+   Only statements here; proofs are in Proofs/LedgerProofs.v and Proofs/RefineLedger.v.
+
+   Reading (DESIGN.md I1): a response is abstracted to GROUPS (one for its adjustment, one per
+   container update) of releases and claims on keys (container id x item); Spec/AbsLedger.v is the
+   30-line reference: releases first, a claim on a key still held is a conflict.  The theorems are
+   about Model/Result.v's [run_request], the executable model of pkg/adaptation/result.go that the
+   correspondence check runs against the real code on every invocation. *)
+From Coq Require Import String List Bool ZArith.
+From NRI Require Import Model.Types Model.Result Spec.AbsLedger Proofs.LedgerProofs Proofs.RefineLedger.
 Import ListNotations.
 
-(* The abstract ledger (interpretation I1): if a group (adjustment or update of one plugin) claims a key,
-   a later group claims the same key, neither is an ignore-failure update, and no group after the first
-   up to and including the later one marks the key for removal, the history is a conflict — whatever
-   else any plugin does, for any number of plugins, any key kind, any target container. *)
+(* (1) The abstract ledger: if a group claims a key, a later group claims the same key, neither is an
+   ignore-failure update, and no group after the first up to and including the later one marks the
+   key for removal, the history is a conflict — whatever else any plugin does, for any number of
+   plugins, any key kind, any target container. *)
 Theorem C01_abs_collision_conflicts :
   forall k pre1 g1 pre g2 post o d,
     g_ignorable g1 = false -> g_ignorable g2 = false ->
@@ -17,9 +23,72 @@ Theorem C01_abs_collision_conflicts :
 Proof. exact abs_collision_conflicts. Qed.
 Print Assumptions C01_abs_collision_conflicts.
 
-(* non-vacuity: two plugins both setting annotation "k" of container "c" *)
-Example C01_example :
-  abs_conflict (Some "c"%string)
-    [ {| rp_adjust := Some (with_a_ann adj_empty [("k", "A")]%string); rp_updates := [] |};
-      {| rp_adjust := Some (with_a_ann adj_empty [("k", "B")]%string); rp_updates := [] |} ] = true.
+(* (2) Refinement: for EVERY request (create / update / stop), EVERY original container or requested
+   resources and EVERY chain of plugin responses, the model of result.go fails whenever the abstract
+   ledger reports a conflict.  [wf_rp]: the annotation map of an adjustment has distinct keys (it is
+   a Go map). *)
+Theorem C01_conflict_fails_request :
+  forall rq rps, Forall wf_rp rps ->
+    abs_conflict (req_created rq) rps = true -> exists e, snd (run_request rq rps) = Err e.
+Proof. exact conflict_fails. Qed.
+Print Assumptions C01_conflict_fails_request.
+
+(* (1)+(2): a colliding pair fails the request — every item kind, every position of the two plugins
+   (adjacent or not), adjustment against adjustment, update against update, or mixed *)
+Theorem C01_colliding_pair_fails_request :
+  forall rq rps k pre1 g1 pre g2 post,
+    Forall wf_rp rps ->
+    all_groups (req_created rq) rps = pre1 ++ g1 :: pre ++ g2 :: post ->
+    g_ignorable g1 = false -> g_ignorable g2 = false ->
+    In k (g_claims g1) -> In k (g_claims g2) ->
+    (forall g, In g (pre ++ [g2]) -> ~ In k (g_releases g)) ->
+    exists e, snd (run_request rq rps) = Err e.
+Proof. exact colliding_pair_fails_request. Qed.
+Print Assumptions C01_colliding_pair_fails_request.
+
+(* (3) The full correspondence of verdicts and ledgers, from which (2) and C02 follow: on success the
+   model's ledger holds exactly the keys of the abstract ledger *)
+Theorem C01_model_refines_ledger :
+  forall rq rps, Forall wf_rp rps ->
+    match snd (run_request rq rps) with
+    | Ok s => abs_conflict (req_created rq) rps = false /\ self_update (req_created rq) rps = false /\
+              exists oa d, abs_run (all_groups (req_created rq) rps) [] [] = Some (oa, d) /\ leq (s_own s) oa
+    | Err _ => abs_conflict (req_created rq) rps = true \/ self_update (req_created rq) rps = true
+    end.
+Proof. exact run_request_refines_ledger. Qed.
+Print Assumptions C01_model_refines_ledger.
+
+(* one adjustment: result.adjust against the abstract group of the adjustment *)
+Theorem C01_adjust_refines_group :
+  forall p c a o oa, NoDup (map fst (a_ann p)) -> P3 (c, a, o) -> leq o oa ->
+    match adjust p (c, a, o) with
+    | Err _ => fst (abs_step (g_releases (adjust_group (c_id c) p)) (g_claims (adjust_group (c_id c) p)) oa) = false
+    | Ok (c', a', o') =>
+        fst (abs_step (g_releases (adjust_group (c_id c) p)) (g_claims (adjust_group (c_id c) p)) oa) = true /\
+        leq o' (snd (abs_step (g_releases (adjust_group (c_id c) p)) (g_claims (adjust_group (c_id c) p)) oa)) /\
+        c_id c' = c_id c /\ P3 (c', a', o')
+    end.
+Proof. exact adjust_ledger. Qed.
+Print Assumptions C01_adjust_refines_group.
+
+(* non-vacuity: two plugins both setting annotation "k" of container "c": an abstract conflict, the
+   hypotheses of (2) hold, and the model fails *)
+Definition ex_c : container :=
+  {| c_id := "c"; c_ann := []; c_mounts := []; c_env := []; c_args := []; c_hooks := hooks_empty; c_rlimits := [];
+     c_devices := []; c_res := res_empty; c_cgroups := ""; c_oom := None |}%string.
+Definition ex_rps : list response :=
+  [ {| rp_adjust := Some (with_a_ann adj_empty [("k", "A")]%string); rp_updates := [] |};
+    {| rp_adjust := Some (with_a_ann adj_empty [("k", "B")]%string); rp_updates := [] |} ].
+Example C01_example : abs_conflict (Some "c"%string) ex_rps = true.
 Proof. reflexivity. Qed.
+Example C01_example_wf : Forall wf_rp ex_rps.
+Proof. repeat constructor; cbn; intros []; try discriminate; contradiction. Qed.
+Example C01_example_fails : exists e, snd (run_request (RCreate ex_c) ex_rps) = Err e.
+Proof. eexists. vm_compute. reflexivity. Qed.
+(* three plugins, non-adjacent collision on a scalar field of a third-party container via updates *)
+Example C01_example_update :
+  let u v := {| u_id := "other"; u_res := Some {| r_scal := [(CpuShares, VZ v)]; r_hp := []; r_uni := [] |}; u_ignore := false |}%string in
+  let rps := [ {| rp_adjust := None; rp_updates := [u 1%Z] |}; {| rp_adjust := None; rp_updates := [] |};
+               {| rp_adjust := None; rp_updates := [u 2%Z] |} ] in
+  abs_conflict None rps = true /\ exists e, snd (run_request (RStop "x"%string) rps) = Err e.
+Proof. split; [reflexivity|eexists; vm_compute; reflexivity]. Qed.
